@@ -62,6 +62,7 @@ class MStrat(object):
         self.carry_today = 0.0
         self.given_today = 0.0  # capital passed down to sub-strategies today
         self.activity_today = 0  # flows / transfers / trades booked on this node today (even if they net to zero)
+        self.first_activity_t = None  # date index of the first cash movement ever booked on this node
         self.last_value = 0.0
         self.last_notl = 0.0
         self.rows = {}
@@ -293,6 +294,8 @@ class Model(object):
         n = self.node(path)
         n.cash += amount
         n.activity_today += 1
+        if n.first_activity_t is None:
+            n.first_activity_t = self.t
         if flow:
             n.flows_today += amount
             n.ext_flow_today += amount
@@ -305,9 +308,13 @@ class Model(object):
         n = self.node(path)
         self.ntransfers += 1
         n.activity_today += 1
+        if n.first_activity_t is None:
+            n.first_activity_t = self.t
         if n.parent is None:
             return
         n.parent.activity_today += 1
+        if n.parent.first_activity_t is None:
+            n.parent.first_activity_t = self.t
         if abs(amount) > self.peak_today:
             self.peak_today = abs(amount)
             self.peak_ever = max(self.peak_ever, self.peak_today)
@@ -338,6 +345,8 @@ class Model(object):
         par.cash -= outlay + fee
         par.fees_today += fee
         par.activity_today += 1
+        if par.first_activity_t is None:
+            par.first_activity_t = self.t
         if abs(outlay) > self.peak_today and outlay == outlay:
             self.peak_today = abs(outlay)
             self.peak_ever = max(self.peak_ever, self.peak_today)
